@@ -10,6 +10,19 @@ import (
 // If the system-specific or Go-specific error cannot be mapped to anything, it
 // will be logged and EIO will be returned.
 func ExtractErrno(err error) Errno {
+	// A concrete errno anywhere in the chain wins. The sentinel comparisons
+	// below are lossy: os.ErrPermission matches both EPERM and EACCES,
+	// os.ErrExist both EEXIST and ENOTEMPTY, so testing them first would
+	// turn EPERM into EACCES and ENOTEMPTY into EEXIST.
+	var errno Errno
+	if errors.As(err, &errno) {
+		return errno
+	}
+
+	if e := sysErrno(err); e != 0 {
+		return e
+	}
+
 	for _, pair := range []struct {
 		error
 		Errno
@@ -22,15 +35,6 @@ func ExtractErrno(err error) Errno {
 		if errors.Is(err, pair.error) {
 			return pair.Errno
 		}
-	}
-
-	var errno Errno
-	if errors.As(err, &errno) {
-		return errno
-	}
-
-	if e := sysErrno(err); e != 0 {
-		return e
 	}
 
 	// Default case.
